@@ -47,3 +47,48 @@ Lemma dispatch_dq : is_ident_start 34 = false /\ is_digit 34 = false /\ normaliz
 Proof. vm_compute; auto. Qed.
 Lemma dispatch_bt : is_ident_start 96 = false /\ is_digit 96 = false /\ is_unicode_quote 96 = false.
 Proof. vm_compute; auto. Qed.
+
+(* dispatch facts for the single-quote family of nextToken (', U+2018, U+2019, U+00AB, U+00BB): none of them is an
+   identifier start, a digit, a double quote or the back-tick *)
+Definition sq_family : list N := [39; 8216; 8217; 171; 187].
+Lemma sq_family_dispatch :
+  forallb (fun q => negb (is_ident_start q) && negb (is_digit q) && negb (q =? 34) && negb (is_unicode_quote q) &&
+                    negb (q =? 96) && is_single_quote_family q) sq_family = true.
+Proof. vm_compute; reflexivity. Qed.
+(* the quote normalisation table: keys are scalar values, images are the two ASCII quotes *)
+Lemma normalize_table_ok :
+  forallb (fun kv => ((fst kv <? 55296) || ((57343 <? fst kv) && (fst kv <? 1114112))) && (128 <=? fst kv) &&
+                     ((snd kv =? 39) || (snd kv =? 34))) normalize_quote_table = true.
+Proof. vm_compute; reflexivity. Qed.
+(* two-word keywords: every first word listed in compound_starts is a keyword and contains no blank; every word of
+   every compound keyword is a keyword; every compound key contains a blank; compound kinds are keyword kinds only *)
+Fixpoint split_blank (acc v : list N) : list (list N) :=
+  match v with
+  | [] => [acc]
+  | b :: tl => if b =? 32 then acc :: split_blank [] tl else split_blank (acc ++ [b]) tl
+  end.
+Lemma compound_starts_ok :
+  forallb (fun k => negb (existsb (N.eqb 32) k) && match assoc_b keywords k with Some _ => true | None => false end)
+          compound_starts = true.
+Proof. vm_compute; reflexivity. Qed.
+Lemma compound_words_ok :
+  forallb (fun kv => existsb (N.eqb 32) (fst kv) &&
+                     forallb (fun w => match assoc_b keywords w with Some _ => true | None => false end)
+                             (split_blank [] (fst kv))) compound_keywords = true.
+Proof. vm_compute; reflexivity. Qed.
+(* the upper-casing exceptions map to ASCII letters (never to a blank) *)
+Lemma upper_special_ok : forallb (fun kv => negb (snd kv =? 32)) upper_special = true.
+Proof. vm_compute; reflexivity. Qed.
+(* kinds of the lexemes that are not words are not keyword kinds *)
+Definition nonword_types : list N :=
+  [TT_Number; TT_Placeholder; TT_DollarQuotedString; TT_LeftParen; TT_RightParen;
+   TT_LBracket; TT_RBracket; TT_Comma; TT_Semicolon; TT_Dot; TT_Plus; TT_Minus; TT_LongArrow; TT_Arrow; TT_Mul; TT_Div;
+   TT_RArrow; TT_Eq; TT_LtEq; TT_Neq; TT_ArrowAt; TT_Lt; TT_GtEq; TT_Gt; TT_ExclamationMarkTildeAsterisk;
+   TT_ExclamationMarkTilde; TT_ExclamationMark; TT_DoubleColon; TT_Colon; TT_Mod; TT_StringConcat; TT_Pipe; TT_Overlap;
+   TT_Ampersand; TT_AtArrow; TT_AtAt; TT_AtSign; TT_HashLongArrow; TT_HashArrow; TT_HashMinus; TT_Sharp; TT_QuestionPipe;
+   TT_QuestionAnd; TT_Question; TT_TildeAsterisk; TT_Tilde].
+Lemma nonword_not_keyword :
+  forallb (fun ty => forallb (fun kv => negb (snd kv =? ty)) (keywords ++ compound_keywords)) nonword_types = true.
+Proof. vm_compute; reflexivity. Qed.
+(* blank, '$' and the ASCII bytes that are not letters, digits or '_' are not identifier characters: by the ASCII
+   class lemmas above *)
